@@ -172,3 +172,50 @@ Proof.
   destruct (Inv12_run c e progs sched) as [_ H2]. destruct (H2 tid) as [_ Hd].
   eapply Forall_impl; [|exact Hd]. intros d. apply wf_drec_no_panic.
 Qed.
+
+(** ---- published big.Ints are immutable; every update installs a fresh cell ---- *)
+Lemma micro_ptr_eff c tid s l s' q :
+  micro_sh c tid s l = Some s' -> ptr s' q = ptr s q \/ ptr s' q = Some (next s).
+Proof.
+  unfold micro_sh. destruct (micro c tid s l) as [|s1 l1|s1 d1] eqn:Hm; intros H; inversion H; subst; clear H.
+  all: micro_inv Hm; cbn; try (left; reflexivity).
+  all: match goal with |- context [upd ?f ?k ?v ?x] => destruct (upd_cases f k v x) as [[Hq Hu]|[Hn Hu]]; rewrite Hu end; auto.
+Qed.
+
+Lemma heap_next_free s : heap_ok s -> heap s (next s) = None.
+Proof.
+  intros [_ H2]. destruct (heap s (next s)) eqn:E; [|reflexivity].
+  assert (next s < next s)%N by (apply H2; congruence). lia.
+Qed.
+
+Lemma ptr_fresh_step c s w p :
+  Inv1 c s -> ptr (shs (step c s w)) p <> ptr (shs s) p ->
+  exists a, ptr (shs (step c s w)) p = Some a /\ heap (shs s) a = None.
+Proof.
+  intros [Hh _] Hne. destruct w as [|tid0]; cbn [step] in *.
+  - exfalso. apply Hne. cbn. unfold step_settler. destruct (sreg (shs s)); [|destruct (chan (shs s))]; reflexivity.
+  - destruct (step_thread_tstep c tid0 s) as [E|l0 r sh' l' Hs Hm E|l0 r sh' d Hs Hm E]; rewrite E in *; cbn in *.
+    + now elim Hne.
+    + destruct (micro_ptr_eff c tid0 (shs s) l0 sh' p (micro_sh_next _ _ _ _ _ _ Hm)) as [He|He]; [congruence|].
+      exists (next (shs s)). split; [assumption | now apply heap_next_free].
+    + destruct (micro_ptr_eff c tid0 (shs s) l0 sh' p (micro_sh_fin _ _ _ _ _ _ Hm)) as [He|He]; [congruence|].
+      exists (next (shs s)). split; [assumption | now apply heap_next_free].
+Qed.
+
+Lemma heap_facts c e progs sched :
+  let s := run c sched (st0 e progs) in
+  (forall p, match ptr (shs s) p with
+             | Some a => unpaid (shs s) p <> None /\ heap (shs s) a = unpaid (shs s) p
+             | None => unpaid (shs s) p = None
+             end) /\
+  (forall a v more, heap (shs s) a = Some v -> heap (shs (run c more s)) a = Some v) /\
+  (forall w p, ptr (shs (step c s w)) p <> ptr (shs s) p ->
+     exists a, ptr (shs (step c s w)) p = Some a /\ heap (shs s) a = None) /\
+  (forall tid l, cur (thr s tid) = Some l -> l_pt l = PDeref -> heap (shs s) (rptr l) = Some (reg l)).
+Proof.
+  intros s. pose proof (Inv1_run c e progs sched) as HI. fold s in HI. split; [|split; [|split]].
+  - exact (proj1 (proj1 HI)).
+  - intros a v more. now apply heap_immutable_run.
+  - intros w p. now apply ptr_fresh_step.
+  - intros tid l Hc Hp. destruct (proj2 HI tid l Hc) as [_ [_ [_ Hsn]]]. apply Hsn. now rewrite Hp.
+Qed.
